@@ -413,9 +413,14 @@ c.param("self", _Sections()).param("password", T.Const(""))
 c.skip_cross = True
 c.mod("self.catalog").mod("self.info")
 c.may_raise(PDFSyntaxError, lambda self: not any("root" in k for k in self._plan))
-c.ens("root-of-the-first-section-that-has-one", lambda self: self.catalog == {"root-of": [i for i, k in enumerate(self._plan) if "root" in k][0]})
-c.ens("info-of-sections-up-to-that-one-newest-first", lambda self: self.info == [
-    {"info-of": i} for i, k in enumerate(self._plan) if "info" in k and i <= [j for j, kk in enumerate(self._plan) if "root" in kk][0]])
+def _first_root(plan):
+    r = [i for i, k in enumerate(plan) if "root" in k]
+    return r[0] if r else None
+
+
+c.ens("root-of-the-first-section-that-has-one", lambda self: _first_root(self._plan) is not None and self.catalog == {"root-of": _first_root(self._plan)})
+c.ens("info-of-sections-up-to-that-one-newest-first", lambda self: _first_root(self._plan) is not None and self.info == [
+    {"info-of": i} for i, k in enumerate(self._plan) if "info" in k and i <= _first_root(self._plan)])
 
 
 # -- object-stream members: member `index` is object n*2 + index of the parsed stream ------------------------------------------
